@@ -76,3 +76,46 @@ Section SpecNorm.
     str_in (norm op) (pw_ops ++ ["CastLike"%string]) = true -> sem op ats vs <> None -> Forall2 same_elems vs vs' ->
     (norm op = "CastLike"%string \/ operands_ok vs') -> sem op ats vs' <> None.
 End SpecNorm.
+
+(* ---- the operator lists of the DAG phases of the transpose pass (ELEMENTWISE_UNARY_OPS / ELEMENTWISE_BINARY_OPS) *)
+Definition pw_ops_all : list string := pointwise_unary ++ pointwise_binary.
+
+Lemma pw_ops_sub op : str_in op pw_ops = true -> str_in op pw_ops_all = true.
+Proof.
+  intro H. apply str_in_In in H. apply str_in_In. unfold pw_ops, pw_ops_all in *.
+  apply in_app_or in H as [H|H]; apply in_or_app; [now left | right].
+  simpl in H. unfold pointwise_binary. simpl. intuition.
+Qed.
+
+Lemma elem_in_pw_all op : str_in op ELEMENTWISE_UNARY_OPS || str_in op ELEMENTWISE_BINARY_OPS = true ->
+  op = "CastLike"%string \/ str_in op pw_ops_all = true.
+Proof.
+  intro H. apply orb_prop in H as [H|H]; apply str_in_In in H.
+  - pose proof elementwise_unary_pointwise as Hall. rewrite forallb_forall in Hall. specialize (Hall _ H).
+    apply str_in_In in Hall. apply in_app_or in Hall as [Hu|[<-|[]]]; [right | now left].
+    apply str_in_In. unfold pw_ops_all. apply in_or_app. now left.
+  - pose proof elementwise_binary_pointwise as Hall. rewrite forallb_forall in Hall. specialize (Hall _ H).
+    right. apply str_in_In. unfold pw_ops_all. apply in_or_app. right. now apply str_in_In.
+Qed.
+
+Section SpecAll.
+  Variable A : Type.
+  Notation V := (tensor A).
+  Variable sem : string -> list nat -> list V -> option (list V).
+  Variable norm : string -> string.
+  Definition sem_pointwise_spec_a (F : string -> list nat -> list A -> A) : Prop :=
+    forall op ats vs o, str_in (norm op) pw_ops_all = true -> sem op ats vs = Some o -> operands_ok vs ->
+      exists y, o = [y] /\ teq y (pwn (F (norm op) ats) vs).
+  Definition sem_accepts_spec_a : Prop := forall op ats vs vs',
+    str_in (norm op) (pw_ops_all ++ ["CastLike"%string]) = true -> sem op ats vs <> None -> Forall2 same_elems vs vs' ->
+    (norm op = "CastLike"%string \/ operands_ok vs') -> sem op ats vs' <> None.
+
+  Lemma spec_a_n F : sem_pointwise_spec_a F -> sem_pointwise_spec_n A sem norm F.
+  Proof. intros H op ats vs o Hop. apply H. now apply pw_ops_sub. Qed.
+  Lemma accepts_a_n : sem_accepts_spec_a -> sem_accepts_spec_n A sem norm.
+  Proof.
+    intros H op ats vs vs' Hop. apply H. apply str_in_In in Hop. apply str_in_In.
+    apply in_app_or in Hop as [Hop|Hop]; apply in_or_app; [left | now right].
+    apply str_in_In. apply pw_ops_sub. now apply str_in_In.
+  Qed.
+End SpecAll.
